@@ -306,6 +306,7 @@ struct scanner_s {
     void *char_source;
     read_chars_f read_func;
     int at_eof;
+    int cr_at_fill_end;     /* whether the most recent buffer fill ended with a (since converted) carriage return */
 
     /* cif version */
     int cif_version;
